@@ -1,0 +1,8 @@
+//go:build !verif
+// +build !verif
+
+package network
+
+// verifC10Point marks a scheduling point for the verification harness;
+// without the build tag "verif" it does nothing.
+func verifC10Point(string, *Router, Conn) {}
